@@ -150,3 +150,16 @@ PROPS['C12'] = {
     'assumptions': A_COMMON,
     'not_decided': ['optimality itself; the three clauses about per-node state sets of the second pass; rooting independence (corollary of optimality)', 'site-by-site agreement acr/asr (both are proved against the same recurrence)'],
 }
+
+PROPS['C18'] = {
+    'level': 'other', 'claimed': True,
+    'claim': 'determinism reduced to one-run proofs: map iteration is modelled demonically (every Next delivers an arbitrary not-yet-visited key), and at the anchored sites a postcondition/invariant that determines the result from the inputs alone is proved for every iteration order: (1) asr up-pass, expansion of the "any amino acid" code: the set of expanded states equals the alphabet minus gap and "*", whatever the order; (2) Tree.Rename: after any prefix of the iteration every indexed node carries namemap[name] if its key was delivered and its original name otherwise, and the name index is not modified inside the loop. Together with C19/C20 style seed handling this is a sufficient-condition argument, not a whole-program 2-safety proof',
+    'level_note': 'the engine never converts pointers to integers and compares pointers only for equality, so addresses are unobservable in the verified functions; rand is a function of the seed (A-RAND); acr alphabet construction, nexus writer label tables and cross-process byte identity are not under contract',
+    'packages': ALLPK,
+    'functions': [('asr.parsimonyUPPASS', {'match': [r'^inv\..*L2']}),
+                  ('(*tree.Tree).Rename', {'match': [r'^inv', r'^loopframe', r'^nil', r'^pre']})],
+    'trusted_base': TB_COMMON,
+    'assumptions': A_COMMON,
+    'explanation': 'Functional-postcondition argument under demonic map iteration at the listed sites (DESIGN.md section 4, C18); not a whole-program determinism proof.',
+    'not_decided': ['byte-identical output across processes for whole commands', 'clock independence beyond the seed', 'map-ranging functions not under contract (acr alphabet, nexus WriteNexus, TipBag.Tips, UpdateTipIndex, Merge)'],
+}
